@@ -138,7 +138,7 @@ def run(ck, facts, tier):
                                        % (", ".join(src_), tab[(src_[0], k_)]["reason"])}
                 succession[fam_] = sorted({g_ for k_ in need for g_ in pool[(mod_, k_)]})
     ck.extra["succession"] = succession
-    absorbed, absorbed_fns = absorb_helpers(P, R, fams, {f for f, _ in tab})
+    absorbed, absorbed_fns = absorb_helpers(P, R, fams, {f for f, _ in tab}, tab)
     ck.extra["absorbed_helpers"] = sorted(absorbed_fns)
     # sites hoisted from a reviewed function into its only caller (a precondition assert moved up one level): the caller may draw on the callee's unused
     # budget of the same kind, when that row needs no dominating guard
@@ -299,7 +299,7 @@ def loader_rule(ck, facts, P=None, only=None):
 
 
 
-def absorb_helpers(P, R, fams, tabfams):
+def absorb_helpers(P, R, fams, tabfams, tab=None):
     """Private helpers extracted from reviewed functions: a reachable function with panic sites whose family is not in the reviewed table, all of whose
     callers (transitively, through other such helpers, at most 3 levels) are members of reviewed families, is judged in its callers' context.
     Returns ({reviewed caller fn: {kind: [(control depth incl. the call site's, helper fn, line)]}}, {absorbed helper fns})."""
@@ -334,6 +334,16 @@ def absorb_helpers(P, R, fams, tabfams):
         return out or None
 
     absorbed, fns = {}, set()
+    # a helper shared by several reviewed functions (one search routine parametrised by a direction, say) carries the sites of all of them: each of its sites
+    # is one program location and is judged once, in the calling context whose reviewed row of that kind still has room
+    spare = {}
+    if tab is not None:
+        own = {}
+        for fam_, members_ in fams.items():
+            for _, per_ in members_:
+                for k_, ss_ in per_.items():
+                    own[(fam_, k_)] = own.get((fam_, k_), 0) + len(ss_)
+        spare = {k_: len(e_["ctrl"]) - own.get(k_, 0) for k_, e_ in tab.items()}
     for u in sorted(R):
         if fam_of.get(u) in tabfams or not sites_of.get(u):
             continue
@@ -341,10 +351,19 @@ def absorb_helpers(P, R, fams, tabfams):
         if ctx is None:
             continue
         fns.add(u)
-        for g, d in ctx:
-            for kind, sites in sites_of[u].items():
-                for s_ in sites:
-                    absorbed.setdefault(g, {}).setdefault(kind, []).append((d + s_["ctrl"], u, s_["ln"]))
+        roots_ = sorted({cc.root_of(g) for g, _ in ctx})
+        if len(roots_) <= 1 or tab is None:
+            for g, d in ctx:
+                for kind, sites in sites_of[u].items():
+                    for s_ in sites:
+                        absorbed.setdefault(g, {}).setdefault(kind, []).append((d + s_["ctrl"], u, s_["ln"]))
+            continue
+        for kind, sites in sites_of[u].items():
+            for s_ in sites:
+                pick = next(((g, d) for g, d in ctx if spare.get((fam_of.get(g) or cc.family(g), kind), 0) > 0), ctx[0])
+                fk = (fam_of.get(pick[0]) or cc.family(pick[0]), kind)
+                spare[fk] = spare.get(fk, 0) - 1
+                absorbed.setdefault(pick[0], {}).setdefault(kind, []).append((pick[1] + s_["ctrl"], u, s_["ln"]))
     return absorbed, fns
 
 
